@@ -1,4 +1,4 @@
-// The *real* generator of /repo is run on the IR family; its output is compiled into this crate (both configurations).
+// The *real* generator of /repo is run on the IR family; its output is compiled into this crate (default, exhaustive and serialize-empty-collections configurations).
 use std::env;
 use std::path::PathBuf;
 
@@ -8,4 +8,5 @@ fn main() {
     let out = PathBuf::from(env::var_os("OUT_DIR").unwrap());
     conjure_codegen::Config::new().generate_files(input, out.join("conjure")).unwrap();
     conjure_codegen::Config::new().exhaustive(true).generate_files(input, out.join("conjure-exhaustive")).unwrap();
+    conjure_codegen::Config::new().serialize_empty_collections(true).generate_files(input, out.join("conjure-empty")).unwrap();
 }
